@@ -2599,12 +2599,19 @@ class NetCDFWrite(IOWrite):
                     "variable without a netCDF variable name"
                 )
 
+            # The name must not be that of a netCDF variable or
+            # dimension that is already in this file, and is in use
+            # from now on although no netCDF variable is created for
+            # it in this file. External cell measures with the same
+            # name are the same external variable.
+            external_names = g.setdefault("external_variable_names", {})
+            if ncvar not in external_names:
+                external_names[ncvar] = self._netcdf_name(ncvar)
+
+            ncvar = external_names[ncvar]
+
             # Add ncvar to the global external_variables attribute
             self._set_external_variables(ncvar)
-
-            # The name is in use, although no netCDF variable is
-            # created for it in this file
-            g["ncvar_names"].add(ncvar)
 
             if (
                 g["external_file"] is not None
